@@ -53,13 +53,17 @@ def judge(ck, ex, res):
         return judge_ssh(ck, ex, res)
     desc = "%s exchange: %s, replies %s, %s, cut %d, %d client(s)" % (
         kind, [(r.get("method"), r.get("target"), r.get("headers"), r["body"], r.get("chunked")) for r in ex["reqs"]] if kind == "http" else [r["body"] for r in ex["reqs"]],
-        ex["replies"], ("pipelined" if ex["pipelined"] else "lock-step") + (", client half-closes before reading" if ex.get("halfclose") else ""), ex["cut"], ex["clients"])
+        ex["replies"], ("pipelined" if ex["pipelined"] else "lock-step") + (", client half-closes before reading" if ex.get("halfclose") else "") + (", via port-less director proxy %d" % ex["portless"] if ex.get("portless") else ""), ex["cut"], ex["clients"])
     rp = {"exchange": ex, "observed": res}
     if res["decoy_connections"]:
         ck.disagree("%s-proxy/dialled-other-address" % kind, "%s: the decoy listener received %d connection(s)" % (desc, res["decoy_connections"]), rp)
         return
     for ci in range(len(res["sent"])):
         sent, back, client, replied = res["sent"][ci] or [], res["backend"][ci] or [], res["client"][ci] or [], res["replied"][ci] or []
+        if ex.get("portless") and (res.get("backend_at") or [""] * 9)[ci] != (res.get("want_at") or [""] * 9)[ci] and (res.get("backend_at") or [""] * 9)[ci]:
+            ck.disagree("%s-proxy/dialled-other-address" % kind, "%s: client %d went through the proxy whose backend is %s (director host without port: the "
+                        "client's port decides), its stream arrived at %s" % (desc, ci, res["want_at"][ci], res["backend_at"][ci]), rp)
+            return
         if back != sent:
             if not back:
                 sig, what = "%s-proxy/nothing-forwarded" % kind, "the backend received nothing"
